@@ -496,7 +496,7 @@ func TestSequence(t *testing.T) {
 
 var propSequenceMatrix = &kit.Prop[SeqCase]{
 	ID: "C20", Name: "sequence-matrix",
-	Rule: "ALL ordered pairs and triples of 6 requests (multi-range small / large / clamped / with suffix, single range, no Range) over two contents (40 and 300 bytes), both modifiers (body.Modifier also built from JSON), modes batch and batch2, 4 rounds; mode rewrite: a 40-byte file served, resized through every ordered pair of sizes from {0,10,40,100} and served again after each, every pair of six requests, with and without JSON construction; " + seqRule,
+	Rule: "ALL ordered pairs and triples of 6 requests (multi-range small / large / clamped / with suffix, single range, no Range) over two contents (40 and 300 bytes), both modifiers (body.Modifier also built from JSON), modes batch and batch2, 3 rounds (JSON-built: pairs only); mode rewrite: a 40-byte file served, resized through every ordered pair of sizes from {0,10,40,100} and served again after each, every pair of six requests, with and without JSON construction; " + seqRule,
 	Run:  runSequence, NonTrivial: nonTrivialSeq, Classes: classesSeq,
 }
 
@@ -521,6 +521,9 @@ func TestSequenceMatrix(t *testing.T) {
 				for _, s2 := range sizes {
 					for a := range rw {
 						for b := range rw {
+							if viaJSON && a != b {
+								continue
+							}
 							cs := SeqCase{Who: "static", Mode: "rewrite", ViaJSON: viaJSON, Rounds: 2, Contents: []SeqContent{{Len: 40, Seed: 3}}, Reqs: []SeqReq{
 								{Content: 0, Range: rw[a]},
 								{Content: 0, Range: rw[b], Rewrite: &SeqContent{Len: s1, Seed: 4}},
@@ -539,11 +542,14 @@ func TestSequenceMatrix(t *testing.T) {
 				for a := range reqs {
 					for b := range reqs {
 						w, vj := strings.TrimSuffix(who, "-json"), strings.HasSuffix(who, "-json")
-						if !yield(SeqCase{Who: w, ViaJSON: vj, Mode: mode, Rounds: 4, Contents: contents, Reqs: []SeqReq{reqs[a], reqs[b]}}) {
+						if !yield(SeqCase{Who: w, ViaJSON: vj, Mode: mode, Rounds: 3, Contents: contents, Reqs: []SeqReq{reqs[a], reqs[b]}}) {
 							return
 						}
 						for d := range reqs {
-							if !yield(SeqCase{Who: w, ViaJSON: vj, Mode: mode, Rounds: 4, Contents: contents, Reqs: []SeqReq{reqs[a], reqs[b], reqs[d]}}) {
+							if vj {
+								break // pairs only for the JSON-built modifier
+							}
+							if !yield(SeqCase{Who: w, ViaJSON: vj, Mode: mode, Rounds: 3, Contents: contents, Reqs: []SeqReq{reqs[a], reqs[b], reqs[d]}}) {
 								return
 							}
 						}
